@@ -17,7 +17,7 @@ func init() {
 	register(&Property{
 		ID:          "C13",
 		Engines:     []string{"cfg", "decide"},
-		Explanation: "WebSocket frame validation, structural part: the per-frame decision of validFrame composed with Parse's opcode switch, read off the branch conditions and compared with RFC 6455 §5.2/5.4/5.5 over all 1024 header combinations x compression setting (O1); the control-payload>125 and negative-64-bit-length rejections dominate frame acceptance (O2); a frame whose nextFrame failed reaches the error return before anything is copied (O3); UTF-8 / close-code / close-reason checks dominate the text and close handlers, each failing edge writes a 1002 close and closes, a message of type 0 is closed and never delivered (O4); validCloseCode's partition of all 65 536 codes (O5); every WebSocket read path tests Parse's error and fails the connection (O6); the default ping handler pongs its argument and the default close handler echoes the code (O7). CheckUtf8 is applied only to whole messages in the message handler (O8); validFrame's expecting-continuation input is the connection's own flag, which follows FIN (O9).",
+		Explanation: "WebSocket frame validation, structural part: the per-frame decision of validFrame composed with Parse's opcode switch, read off the branch conditions and compared with RFC 6455 §5.2/5.4/5.5 over all 1024 header combinations x compression setting (O1); the control-payload>125 and negative-64-bit-length rejections dominate frame acceptance (O2); a frame whose nextFrame failed reaches the error return before anything is copied (O3); UTF-8 / close-code / close-reason checks dominate the text and close handlers, each failing edge writes a 1002 close and closes, a message of type 0 is closed and never delivered (O4); validCloseCode's partition of all 65 536 codes (O5); every WebSocket read path tests Parse's error and fails the connection (O6); the default ping handler pongs its argument and the default close handler echoes the code (O7). CheckUtf8 is applied only to whole messages in the message handler (O8); validFrame's expecting-continuation input is the connection's own flag, which follows FIN (O9). Per-frame payload variables are assigned again on every way round the loop (O10).",
 		NotCovered:  "'accepts everything valid' beyond the frame table; UTF-8 across fragment boundaries as values; segmentation",
 		Run:         runC13,
 	})
@@ -33,7 +33,7 @@ func runC13(c *Ctx) {
 	c.Rule("C13.O8", "E5", "UTF-8 validity is decided on whole messages: the stateless CheckUtf8 is applied only in the message handler (text message, close reason), never to a single frame's payload (a fragment boundary may fall inside a code point)", 1)
 	c.Rule("C13.O10", "E4", "what Parse hands to the message, frame and control handlers belongs to the frame just parsed: every variable passed to handleMessage / handleDataFrame / handleProtocolMessage is assigned again (reset) on every way round the frame loop before it is passed again; a payload left over from the previous control frame is never answered twice", 3)
 	c13PerFrameOutputs(c)
-	c.Rule("C13.O9", "E4", "the expecting-continuation input of validFrame is the connection's own flag, set on the non-FIN data-frame edge and cleared on the FIN edge (a proxy such as 'a partial message is buffered' is false for an empty first fragment)", 2)
+	c.Rule("C13.O9", "E4", "the expecting-continuation input of validFrame is the connection's own flag, set on the non-FIN data-frame edge and cleared on the FIN edge (a proxy such as 'a partial message is buffered' is false for an empty first fragment); the flag and the per-message type are kept whichever handlers are installed (their stores are not conditional on messageHandler / dataFrameHandler)", 3)
 	c.Rule("C13.O7", "E4", "default ping handler: WriteMessage(Pong, []byte(arg)); default close handler: close frame with the received code, empty for 1005", 2)
 	c13ExpectFlag(c)
 	c13Utf8Scope(c)
@@ -86,7 +86,7 @@ func runC13(c *Ctx) {
 						// oracle
 						control := op >= 8
 						forbidden := r2 == 1 || r3 == 1 || (r1 == 1 && comp == 0) || (op >= 3 && op <= 7) || op >= 11 ||
-							(control && fin == 0) || (exp == 1 && (op == 1 || op == 2))
+							(control && fin == 0) || (exp == 1 && (op == 1 || op == 2)) || (exp == 0 && op == 0)
 						if forbidden && got {
 							bad = fmt.Sprintf("accepts a frame RFC 6455 forbids: opcode=%d fin=%d rsv=%d%d%d expectingContinuation=%d compression=%d", op, fin, r1, r2, r3, exp, comp)
 						}
@@ -702,6 +702,32 @@ func c13ExpectFlag(c *Ctx) {
 			bad = fmt.Sprintf("expected the flag to be set on non-FIN and cleared on FIN (found %d / %d stores)", nT, nF)
 		}
 		c.Cond(bad == "", "C13.O9", fnKey(c.P, parse, "flag follows FIN"), c.FnPos(parse), fmt.Sprintf("%d set on !fin, %d clear on fin", nT, nF), bad)
+
+		// kept whichever handlers are installed
+		bad2 := ""
+		for _, f := range ir.WithClosures(parse) {
+			fi := c.P.Info(f)
+			for _, fld := range []string{fExp, "websocket.Conn.msgType"} {
+				for _, st := range c.P.StoresTo(f, fld) {
+					if fld != fExp {
+						if n, ok := ir.ConstInt(st.Val); !ok || n != 0 {
+							continue // only the reset of the per-message type
+						}
+					}
+					if fi.HasFact(st, func(ft ir.Fact) bool {
+						x, _, ok := ir.NilTest(ft.Cond, ft.Truth)
+						if !ok {
+							return false
+						}
+						k := c.P.LoadedField(x)
+						return strings.HasSuffix(k, ".messageHandler") || strings.HasSuffix(k, ".dataFrameHandler")
+					}) {
+						bad2 = fld + " is maintained at " + c.Pos(st) + " only when a particular handler is installed: a connection that uses the other handler never resets its per-message state, so continuation frames are not validated (a new data frame inside a fragmented message, a continuation without a start are accepted) and every message after the first is reported with the first one's type"
+					}
+				}
+			}
+		}
+		c.Cond(bad2 == "", "C13.O9", fnKey(c.P, parse, "state kept whichever handlers are installed"), c.FnPos(parse), "stores not conditional on a handler being set", bad2)
 	}
 }
 
